@@ -51,14 +51,14 @@ class VttCue:
   _EOL_SEQ_RE = re.compile(r"\n{2,}")
   # a carriage return in the text is a line terminator for WebVTT readers
   _LINE_BREAK_RE = re.compile(r"\r\n|\r|\n")
-  # tags written by the WebVTT writer ("<" in text is escaped)
-  _TAG_RE = re.compile(r"<[^>]*>")
 
   def __init__(self, identifier: Optional[int] = None):
     self._id: int = identifier
     self._begin: Optional[ClockTime] = None
     self._end: Optional[ClockTime] = None
     self._text: str = ""
+    # the text without the formatting tags
+    self._plain_text: str = ""
     self._line: int = None
     self._linealign: VttCue.LineAlignment = None
     self._textalign: VttCue.TextAlignment = None
@@ -106,8 +106,7 @@ class VttCue:
 
   def is_only_whitespace_or_empty(self):
     """Returns whether the paragraph text, tags excluded, contains only whitespace or is empty"""
-    text = self._TAG_RE.sub("", self._text)
-    return len(text) == 0 or text.isspace()
+    return len(self._plain_text) == 0 or self._plain_text.isspace()
 
   def normalize_eol(self):
     """Remove line breaks at the beginning and end of the paragraph, and replace
@@ -118,6 +117,11 @@ class VttCue:
   def append_text(self, text: str):
     """Appends text to the paragraph"""
     self._text += text
+    self._plain_text += text
+
+  def append_tag(self, tag: str):
+    """Appends a formatting tag to the paragraph"""
+    self._text += tag
 
   def to_string(self) -> str:
     """Returns the VTT paragraph as a formatted string"""
